@@ -228,7 +228,7 @@ func TestCheck(t *testing.T) {
 	run.Rule("queries generated over a zoo schema (keyed/unkeyed objects, value and pointer lists with nil entries, union, enum, args by literal/variable/default) with duplicate aliases, inline and named fragments (re-used), unions; " +
 		"each query is executed under several per-field mode configurations (plain/Expensive/batch/batch+fallback both flags/NumParallelInvocations k) x work schedulers (thunder's + FIFO/LIFO/random/pool/yield), inside a Rerunner twice, through graphql.HTTPHandlerWithExecutor, and as one prepared query shared by 3 concurrent requests over different data; " +
 		"every result is compared with an independent sequential reference evaluator. Non-trivial = query shows >= 2 of {duplicate alias, fragment, union, list, arguments, depth >= 3}; distinct by AST shape.")
-	run.Assume("reference evaluator gen.Eval and generator gen.Generate are correct; only valid queries inside thunder's documented feature set (no directives here, see C19)")
+	run.Assume("reference evaluator gen.Eval and generator gen.Generate are correct; only queries thunder's validation accepts; 1 case in 8 carries @skip/@include (C19 studies those by themselves); 1 in 4 spreads one fragment, typed on Node or Leaf and selecting only fields both have, inside objects of both types: thunder validates such a fragment against the object it sits in and applies it, GraphQL proper would not apply it - either outcome is accepted, nothing else")
 	nCfg := run.N(5, 10)
 	configs := buildConfigs(run, sd, nCfg)
 	if len(configs) == 0 {
@@ -249,6 +249,15 @@ func TestCheck(t *testing.T) {
 		if r.Intn(3) == 0 {
 			o = gen.MergeHeavy(o)
 		}
+		switch r.Intn(8) {
+		case 0, 1:
+			// one named fragment shared by objects of two types
+			o.PForeign = 0.2
+		case 2:
+			// @skip/@include as part of ordinary queries (C19 studies them by
+			// themselves); a selection set may lose all its selections
+			o.PDir = 0.15
+		}
 		doc := gen.Generate(r, sd, w, o)
 		text, vars := doc.Text(), doc.VarsJSON()
 		want, err := gen.Eval(sd, doc, w)
@@ -257,6 +266,22 @@ func TestCheck(t *testing.T) {
 			return
 		}
 		wantC := vlib.Canon(want)
+		// A fragment typed on another object type than the object it sits in:
+		// thunder applies it (wantC); GraphQL's rule, not applying it, is the
+		// only other acceptable outcome.
+		wantAlt := wantC
+		if doc.Foreign > 0 {
+			alt, err := gen.EvalForeign(sd, doc, w, false)
+			if err != nil {
+				run.Broken(fmt.Sprintf("case %d: %v\n%s", i, err, text))
+				return
+			}
+			wantAlt = vlib.Canon(alt)
+			run.Count("query_feature:fragment_typed_on_other_object", 1)
+		}
+		if o.PDir > 0 {
+			run.Count("query_feature:directives", 1)
+		}
 		ft := doc.Features(sd)
 		score := 0
 		for _, b := range []bool{ft.DupAlias > 0, ft.InlineFrag+ft.NamedFrag > 0, ft.Union > 0, ft.List > 0, ft.Args > 0, ft.Depth >= 3} {
@@ -289,7 +314,7 @@ func TestCheck(t *testing.T) {
 				return
 			}
 			gotC := vlib.Canon(res.val)
-			if gotC != wantC {
+			if gotC != wantC && gotC != wantAlt {
 				wit["what"] = "result differs from sequential reference evaluation"
 				wit["got"] = vlib.Trunc(gotC, 3000)
 				run.Violation(i, classify(doc, sd, gotC), wit)
@@ -338,7 +363,7 @@ func TestCheck(t *testing.T) {
 					run.Count("cancel_mid_execution_runs", 1)
 					if xerr != nil {
 						run.Count("cancel_mid_execution_returned_error", 1)
-					} else if gotC := vlib.Canon(val); gotC != wantC {
+					} else if gotC := vlib.Canon(val); gotC != wantC && gotC != wantAlt {
 						run.Violation(i, "", map[string]interface{}{"what": "request context cancelled during execution: Execute returned no error and a result that differs from the reference (partial data)",
 							"query": text, "variables": vars, "config": cfg.name, "scheduler": scheds[s].Name, "cancel_at_resolver_call": after, "got": vlib.Trunc(gotC, 2500), "expected": vlib.Trunc(wantC, 2500)})
 					}
@@ -384,13 +409,19 @@ func TestCheck(t *testing.T) {
 						continue
 					}
 					wc := vlib.Canon(wantG)
+					wcAlt := wc
+					if doc.Foreign > 0 {
+						if alt, err := gen.EvalForeign(sd, doc, worlds[g], false); err == nil {
+							wcAlt = vlib.Canon(alt)
+						}
+					}
 					wit := map[string]interface{}{"query": text, "variables": vars, "world": map[string]interface{}{"seed": worlds[g].Seed, "n": w.N, "m": w.M},
 						"config": cfg.name, "modes": fmt.Sprint(cfg.cfg.Modes), "stage": res[g].at, "concurrent_requests": par, "expected": vlib.Trunc(wc, 3000)}
 					if res[g].err != nil {
 						wit["what"] = "valid query failed when the prepared query is shared by concurrent requests"
 						wit["error"] = res[g].err.Error()
 						run.Violation(i, "", wit)
-					} else if gc := vlib.Canon(res[g].val); gc != wc {
+					} else if gc := vlib.Canon(res[g].val); gc != wc && gc != wcAlt {
 						wit["what"] = "result differs from the reference when one prepared query serves concurrent requests over different data"
 						wit["got"] = vlib.Trunc(gc, 3000)
 						run.Violation(i, "", wit)
